@@ -6,6 +6,8 @@ package main
 // path as unsupported (reported inconclusive, never as success).
 
 import (
+	"fmt"
+	"os"
 	"crypto/ed25519"
 	"go/types"
 	"strconv"
@@ -65,6 +67,13 @@ func init() {
 			return e.tt.Bool(ed25519.Verify(raw(k), raw(m), raw(sg)))
 		}
 		e.stubUsed("crypto/ed25519.Verify: uninterpreted function of (key, message, signature)")
+		if os.Getenv("VERIF_DBG") != "" {
+			str := ""
+			for _, t := range all {
+				str += t.String() + " "
+			}
+			fmt.Fprintf(os.Stderr, "DBG ed25519.Verify at %s: %s\n", e.frPos(c), str)
+		}
 		return e.tt.App("uf_ed25519_verify_len"+strconv.Itoa(len(m)), BoolSort, all...)
 	})
 }
